@@ -41,7 +41,7 @@ INVARIANT OolRefines
 CHECK_DEADLOCK FALSE
 """
 
-BROKEN = ("strict", "susort", "nolen", "dollar")
+BROKEN = ("strict", "susort", "nolen", "dollar", "negmask")
 
 
 def q(names):
@@ -63,11 +63,13 @@ SCENARIOS = {
     "q_types": dict(NONE, td=("t1", "t2"), tags=("s1",), feat=("file", "fwd"), n=2),
     # enums, constants, functions and globals using a typedef
     "q_consts": dict(NONE, td=("t1",), en=("e1",), k=("k1",), fn=("f1",), gv=("g1",), n=2),
+    # the 64-bit boundary values as #define / static const / enumerators (enum base types up to unsigned long)
+    "q_big": dict(NONE, td=("t1",), en=("e1",), k=("k1",), feat=("bigconst",), n=2),
     # anonymous aggregates, bit-fields, arrays, function pointers
     "q_rich": dict(NONE, td=("t1",), tags=("s1",), feat=("anon", "bits", "arr", "nested"), n=2),
     "q_fn": dict(NONE, td=("t1",), fn=("f1",), gv=("g1",), feat=("fnp", "file"), n=2),
     # non-vacuity: "strict" and the broken variants must be caught somewhere in here
-    "sanity": dict(NONE, td=("t1",), feat=("file", "arr", "anon"), n=1),
+    "sanity": dict(NONE, td=("t1",), k=("k1",), feat=("file", "arr", "anon", "bigconst"), n=1),
     # ---- thorough tier
     "types2": dict(NONE, td=("t1", "t2"), tags=("s1", "s2"), prims=("int", "char"), feat=("file", "fwd", "union"), n=2),
     "all2": dict(td=("t1", "t2"), tags=("s1", "s2"), en=("e1",), k=("k1",), fn=("f1",), gv=("g1",),
@@ -520,7 +522,7 @@ def run(ctx):
     t0 = time.time()
 
     # ---------------------------------------------------------------- design level
-    scen = ["q_types", "q_consts", "q_rich", "q_fn"] if quick else ["q_types", "q_consts", "q_rich", "q_fn", "types2",
+    scen = ["q_types", "q_consts", "q_big", "q_rich", "q_fn"] if quick else ["q_types", "q_consts", "q_big", "q_rich", "q_fn", "types2",
                                                              "all2", "consts3", "rich2", "types3", "all3"]
     dumps, dumps_n = {}, {}
 
@@ -565,7 +567,9 @@ def run(ctx):
         if len(cand) != dumps_n[name]:
             raise core.MachineryError("%s: %d behaviours printed, %d states" % (name, len(cand), dumps_n[name]))
         ctx.rng.shuffle(cand)
-        cand = cand[:150 if quick else 1000]
+        # every single declaration the scenario offers (e.g. each boundary value) + a sample of the rest
+        ones = [b for b in cand if len(b) == 1]
+        cand = ones + [b for b in cand if len(b) != 1][:max(0, (150 if quick else 700) - len(ones))]
         for b in cand:
             kk = mg.beh_key(b)
             if b and kk not in keys:
@@ -591,7 +595,7 @@ def run(ctx):
                     if r["id"] in verdicts else None}, limit=3)
 
     # ---------------------------------------------------------------- code -> spec at real sizes
-    nrand = 24 if quick else 200
+    nrand = 24 if quick else 120
     rbehs = [random_behaviour(ctx.rng, ctx.rng.randrange(3, 11 if quick else 18)) for _ in range(nrand)]
     rrecs = run_cases(ctx, rbehs, libpath, jobs)
     for r in rrecs:
